@@ -11,6 +11,7 @@ package main
 import (
 	"context"
 	"fmt"
+	"os"
 	"sort"
 	"strings"
 	"time"
@@ -50,6 +51,7 @@ type acpDoc struct {
 	owner   string // "" public, "O"
 	shared  bool   // R has the reader relation
 	fields  string
+	initial string // the creating input, unchanged
 	deleted bool
 }
 
@@ -118,6 +120,8 @@ func engAcp(e *Env) {
 		}
 		schema := fmt.Sprintf(`type Item @policy(id: "%s", resource: "items") { k: Int name: String @index cat: String qty: Int @index price: Float ok: Boolean }`, pol.PolicyID)
 		real.addSchema(ctx, schema)
+		// a collection without a policy whose fields have the same names: a way to address foreign commits
+		real.addSchema(ctx, `type Open { k: Int name: String cat: String qty: Int price: Float ok: Boolean }`)
 		plainSchema := `type Item { k: Int name: String @index cat: String qty: Int @index price: Float ok: Boolean }`
 		var docs []*acpDoc
 		n := 8 + r.Intn(9)
@@ -131,7 +135,7 @@ func engAcp(e *Env) {
 				fs = append(fs, f.name+": "+v.gql())
 			}
 			fs = append(fs, fmt.Sprintf("k: %d", i))
-			d := &acpDoc{k: i, fields: strings.Join(fs, ", ")}
+			d := &acpDoc{k: i, fields: strings.Join(fs, ", "), initial: strings.Join(fs, ", ")}
 			cctx := ctx
 			switch r.Intn(3) {
 			case 0:
@@ -381,16 +385,51 @@ func engAcp(e *Env) {
 						e.violate("acp-leak-timetravel", fmt.Sprintf("as %s, %s returns an unreadable document", rq.name, tq), map[string]any{"request": tq, "requester": rq.name})
 					}
 				}
-				// writes without permission change nothing
-				before, _ := real.gql(octx, fmt.Sprintf(`query { Item(docID: "%s") { k name qty _deleted } }`, d.id))
+				// ... also through a collection without a policy (the commit is addressed by cid, the fields by name)
+				if rows := rowsOf(od, "commits"); len(rows) > 0 {
+					for _, tq := range []string{
+						fmt.Sprintf(`query { Open(cid: "%v", docID: "%s") { k name qty } }`, rows[0]["cid"], d.id),
+						fmt.Sprintf(`query { Open(cid: "%v") { k name qty } }`, rows[0]["cid"]),
+					} {
+						dr, _ := real.gql(rq.ctx, tq)
+						e.Res.Evaluations++
+						if len(rowsOf(dr, "Open")) > 0 {
+							e.violate("acp-leak-timetravel-other-collection", fmt.Sprintf("as %s, %s returns the content of an unreadable document of Item: %s", rq.name, tq, canonJSON(dr)), map[string]any{"request": tq, "requester": rq.name})
+						}
+					}
+				}
+				// writes without permission change nothing (the owner first changes the document, so that writing the
+				// initial content again would be visible)
+				orig, _ := real.gql(octx, fmt.Sprintf(`query { Item(docID: "%s") { name } }`, d.id))
+				if !d.deleted {
+					real.gql(octx, fmt.Sprintf(`mutation { update_Item(docID: "%s", input: {name: "OWNER-CHANGED"}) { _docID } }`, d.id))
+				}
+				before, _ := real.gql(octx, fmt.Sprintf(`query { Item(docID: "%s", showDeleted: true) { k name qty _deleted } }`, d.id))
+				// creating the same initial content again (same docID) must be refused and change nothing
+				if cd, cerr := real.gql(rq.ctx, fmt.Sprintf(`mutation { create_Item(input: {%s}) { _docID } }`, d.initial)); cerr == "" {
+					for _, row := range rowsOf(cd, "create_Item") {
+						if fmt.Sprint(row["_docID"]) != d.id {
+							e.violate("harness-acp", "re-create of the initial content gave another docID", nil)
+						}
+					}
+				}
+				e.count("recreate_probes")
 				real.gql(rq.ctx, fmt.Sprintf(`mutation { update_Item(docID: "%s", input: {name: "HACKED"}) { _docID } }`, d.id))
 				real.gql(rq.ctx, fmt.Sprintf(`mutation { update_Item(filter: {k: {_eq: %d}}, input: {name: "HACKED"}) { _docID } }`, d.k))
 				real.gql(rq.ctx, fmt.Sprintf(`mutation { delete_Item(docID: "%s") { _docID } }`, d.id))
 				real.gql(rq.ctx, fmt.Sprintf(`mutation { delete_Item(filter: {k: {_eq: %d}}) { _docID } }`, d.k))
-				after, _ := real.gql(octx, fmt.Sprintf(`query { Item(docID: "%s") { k name qty _deleted } }`, d.id))
-				e.Res.Evaluations += 4
+				after, _ := real.gql(octx, fmt.Sprintf(`query { Item(docID: "%s", showDeleted: true) { k name qty _deleted } }`, d.id))
+				e.Res.Evaluations += 5
 				if canonJSON(before) != canonJSON(after) {
 					e.violate("acp-write-unguarded", fmt.Sprintf("%s changed a document it may not write: before %s after %s", rq.name, canonJSON(before), canonJSON(after)), map[string]any{"requester": rq.name, "document": d.k})
+				}
+				// the owner puts the original name back (the twin never saw the change)
+				if rows := rowsOf(orig, "Item"); !d.deleted && len(rows) == 1 {
+					lit := "null"
+					if sv, ok := rows[0]["name"].(string); ok {
+						lit = fmt.Sprintf("%q", sv)
+					}
+					real.gql(octx, fmt.Sprintf(`mutation { update_Item(docID: "%s", input: {name: %s}) { _docID } }`, d.id, lit))
 				}
 			}
 			// read-only access: a requester that may read but not update / delete a private document (reader
@@ -436,15 +475,23 @@ func engAcp(e *Env) {
 		{
 			done := make(chan map[string]any, 1)
 			go func() {
-				d, _ := real.gql(sctx, `query { Item(showDeleted: true) { k _deleted } }`)
+				d, _ := real.gql(sctx, `query { Item(showDeleted: true) { _docID k _deleted } }`)
 				done <- d
 			}()
 			select {
 			case d := <-done:
 				for _, row := range rowsOf(d, "Item") {
 					for _, dd := range docs {
-						if dd.owner == "O" && fmt.Sprint(row["k"]) == fmt.Sprint(dd.k) {
-							e.violate("acp-leak-listing", fmt.Sprintf("showDeleted listing returns the unreadable document k=%d to the stranger", dd.k), nil)
+						if dd.owner == "O" && fmt.Sprint(row["_docID"]) == dd.id {
+							od, _ := real.gql(octx, fmt.Sprintf(`query { Item(showDeleted: true, filter: {k: {_eq: %d}}) { _docID k name _deleted } }`, dd.k))
+							if os.Getenv("VERIF_DEBUG") != "" {
+								for key, v := range real.scan(ctx, "/db/data") {
+									if strings.Contains(key, dd.id) {
+										fmt.Printf("RAW %q = %x\n", key, v)
+									}
+								}
+							}
+							e.violate("acp-leak-listing", fmt.Sprintf("showDeleted listing returns the unreadable document k=%d to the stranger (row %s; the owner sees %s; shared=%v deleted=%v)", dd.k, canonJSON(row), canonJSON(od), dd.shared, dd.deleted), nil)
 						}
 					}
 				}
